@@ -216,3 +216,121 @@ package js
 //@ walk inline ClassElement
 // ClassElementName is either a private name or a property name.
 //@ walk union ClassElementName: Private | PropertyName
+
+// ---- C01: recursion depth of the parser (the argument is in engine/vc/depth.go).
+// Depth guards increment a nesting counter on entry, stop when it exceeds its limit and make every call that can lead
+// back to them while the increment is in force and only if the incremented counter passed the limit test (atcalls). No parser function returns with a counter below its value at
+// entry (levels), so between two guard activations on the stack the distance to the limit has shrunk.
+//@ pred jpLevels(p) := p.exprLevel >= old(p.exprLevel) && p.stmtLevel >= old(p.stmtLevel)
+//@ func Parser.parseAnyClass
+//@   ensures[F,depth] @levels: jpLevels(p)
+//@   loop * invariant[F,depth] jpLevels(p)
+//@ func Parser.parseArguments
+//@   ensures[F,depth] @levels: jpLevels(p)
+//@   loop * invariant[F,depth] jpLevels(p)
+//@ func Parser.parseArrayLiteral
+//@   ensures[F,depth] @levels: jpLevels(p)
+//@   loop * invariant[F,depth] jpLevels(p)
+//@ func Parser.parseArrowFuncBody
+//@   ensures[F,depth] @levels: jpLevels(p)
+//@   loop * invariant[F,depth] jpLevels(p)
+//@ func Parser.parseAssignExprOrParam
+//@   ensures[F,depth] @levels: jpLevels(p)
+//@   loop * invariant[F,depth] jpLevels(p)
+//@ func Parser.parseAsyncArrowFunc
+//@   ensures[F,depth] @levels: jpLevels(p)
+//@   loop * invariant[F,depth] jpLevels(p)
+//@ func Parser.parseAsyncExpression
+//@   arith math
+//@   depthguard p.exprLevel NestedExprLimit
+//@   atcalls[F,depth] @guarded: p.exprLevel >= old(p.exprLevel) + 1 && old(p.exprLevel) + 1 <= NestedExprLimit
+//@   ensures[F,depth] @levels: jpLevels(p)
+//@   loop * invariant[F,depth] p.exprLevel >= old(p.exprLevel) + 1 && p.stmtLevel >= old(p.stmtLevel)
+//@ func Parser.parseAsyncFuncDecl
+//@   ensures[F,depth] @levels: jpLevels(p)
+//@   loop * invariant[F,depth] jpLevels(p)
+//@ func Parser.parseAsyncFuncExpr
+//@   ensures[F,depth] @levels: jpLevels(p)
+//@   loop * invariant[F,depth] jpLevels(p)
+//@ func Parser.parseBinding
+//@   arith math
+//@   depthguard p.exprLevel NestedExprLimit
+//@   atcalls[F,depth] @guarded: p.exprLevel >= old(p.exprLevel) + 1 && old(p.exprLevel) + 1 <= NestedExprLimit
+//@   ensures[F,depth] @levels: jpLevels(p)
+//@   loop * invariant[F,depth] p.exprLevel >= old(p.exprLevel) + 1 && p.stmtLevel >= old(p.stmtLevel)
+//@ func Parser.parseBindingElement
+//@   ensures[F,depth] @levels: jpLevels(p)
+//@   loop * invariant[F,depth] jpLevels(p)
+//@ func Parser.parseBlockStmt
+//@   ensures[F,depth] @levels: jpLevels(p)
+//@   loop * invariant[F,depth] jpLevels(p)
+//@ func Parser.parseClassDecl
+//@   ensures[F,depth] @levels: jpLevels(p)
+//@   loop * invariant[F,depth] jpLevels(p)
+//@ func Parser.parseClassElement
+//@   ensures[F,depth] @levels: jpLevels(p)
+//@   loop * invariant[F,depth] jpLevels(p)
+//@ func Parser.parseClassExpr
+//@   ensures[F,depth] @levels: jpLevels(p)
+//@   loop * invariant[F,depth] jpLevels(p)
+//@ func Parser.parseExportStmt
+//@   ensures[F,depth] @levels: jpLevels(p)
+//@   loop * invariant[F,depth] jpLevels(p)
+//@ func Parser.parseExpression
+//@   arith math
+//@   depthguard p.exprLevel NestedExprLimit
+//@   atcalls[F,depth] @guarded: p.exprLevel >= old(p.exprLevel) + 1 && old(p.exprLevel) + 1 <= NestedExprLimit
+//@   ensures[F,depth] @levels: jpLevels(p)
+//@   loop * invariant[F,depth] p.exprLevel >= old(p.exprLevel) + 1 && p.stmtLevel >= old(p.stmtLevel)
+//@ func Parser.parseExpressionSuffix
+//@   ensures[F,depth] @levels: jpLevels(p)
+//@   loop * invariant[F,depth] jpLevels(p)
+//@ func Parser.parseFunc
+//@   ensures[F,depth] @levels: jpLevels(p)
+//@   loop * invariant[F,depth] jpLevels(p)
+//@ func Parser.parseFuncDecl
+//@   ensures[F,depth] @levels: jpLevels(p)
+//@   loop * invariant[F,depth] jpLevels(p)
+//@ func Parser.parseFuncExpr
+//@   ensures[F,depth] @levels: jpLevels(p)
+//@   loop * invariant[F,depth] jpLevels(p)
+//@ func Parser.parseFuncParams
+//@   ensures[F,depth] @levels: jpLevels(p)
+//@   loop * invariant[F,depth] jpLevels(p)
+//@ func Parser.parseIdentifierArrowFunc
+//@   ensures[F,depth] @levels: jpLevels(p)
+//@   loop * invariant[F,depth] jpLevels(p)
+//@ func Parser.parseIdentifierExpression
+//@   ensures[F,depth] @levels: jpLevels(p)
+//@   loop * invariant[F,depth] jpLevels(p)
+//@ func Parser.parseImportStmt
+//@   ensures[F,depth] @levels: jpLevels(p)
+//@   loop * invariant[F,depth] jpLevels(p)
+//@ func Parser.parseModule
+//@   arith math
+//@   ensures[F,depth] @levels: jpLevels(p)
+//@   loop * invariant[F,depth] jpLevels(p)
+//@ func Parser.parseObjectLiteral
+//@   ensures[F,depth] @levels: jpLevels(p)
+//@   loop * invariant[F,depth] jpLevels(p)
+//@ func Parser.parseParenthesizedExpression
+//@   ensures[F,depth] @levels: jpLevels(p)
+//@   loop * invariant[F,depth] jpLevels(p)
+//@ func Parser.parsePropertyName
+//@   ensures[F,depth] @levels: jpLevels(p)
+//@   loop * invariant[F,depth] jpLevels(p)
+//@ func Parser.parseStmt
+//@   arith math
+//@   depthguard p.stmtLevel NestedStmtLimit
+//@   atcalls[F,depth] @guarded: p.stmtLevel >= old(p.stmtLevel) + 1 && old(p.stmtLevel) + 1 <= NestedStmtLimit
+//@   ensures[F,depth] @levels: jpLevels(p)
+//@   loop * invariant[F,depth] p.stmtLevel >= old(p.stmtLevel) + 1 && p.exprLevel >= old(p.exprLevel)
+//@ func Parser.parseStmtList
+//@   ensures[F,depth] @levels: jpLevels(p)
+//@   loop * invariant[F,depth] jpLevels(p)
+//@ func Parser.parseTemplateLiteral
+//@   ensures[F,depth] @levels: jpLevels(p)
+//@   loop * invariant[F,depth] jpLevels(p)
+//@ func Parser.parseVarDecl
+//@   ensures[F,depth] @levels: jpLevels(p)
+//@   loop * invariant[F,depth] jpLevels(p)
